@@ -31,6 +31,8 @@ TREE_FIXES = {"hstack"}  # /repo HEAD carries the repair (fix: commit 417729e)
 
 def _key(r, c):
     k = {"layer": "struct" if r["layer"] == "S" else "catalogue", "fn": r["fn"], "clause": r["cl"], "template": r["t"]}
+    if c["layer"] == "S" and c["fn"] in ("isclose", "allclose"):
+        k["carriers"] = "".join(c["s"])  # who carries units: q quantity, b bare ndarray, l list/number, d dimensionless
     if c["layer"] == "C":
         k["keyword"] = c.get("kw", "")
         k["out_layout"] = c.get("lo", "C")
@@ -38,6 +40,7 @@ def _key(r, c):
         k["rank_lift"] = c.get("rk", 0)
         k["alias"] = c.get("al", "N")
         k["data"] = c.get("dc", "plain")
+        k["carriers"] = c.get("uc", "N")
     return k
 
 
@@ -51,6 +54,8 @@ def _short(c):
         x += " rank+1"
     if c.get("al", "N") != "N" or (c.get("dc", "plain") != "plain" and not c.get("kw")):
         x += " alias=%s data=%s" % (c.get("al"), c.get("dc"))
+    if c.get("uc", "N") != "N" or c.get("dc") == "band":
+        x += " carriers=%s data=%s" % (c.get("uc"), c.get("dc"))
     if c.get("li", "C") != "C" or c.get("lo", "C") != "C":
         x += " layouts in=%s out=%s" % (c.get("li"), c.get("lo"))
     return x
@@ -94,7 +99,7 @@ def _validate(ck, obs, label, fixes):
             c = e["c"]
             if c["layer"] == "S":
                 detail = {"case": _short(c), "expected": c["exp"] or c["texp"], "observed": e["u"]["res"] or e["u"]["tg"], "numpy_on_bare": e["b"]["res"] or e["b"]["tg"]}
-                case = {k: c[k] for k in ("layer", "fn", "t", "a", "ia", "p", "s", "dt", "exp", "texp", "kinds", "m", "fwd")}
+                case = {k: c[k] for k in ("layer", "fn", "t", "a", "ia", "p", "s", "dt", "exp", "texp", "kinds", "m", "fwd", "sw") if k in c}
             else:
                 detail = {"case": _short(c), "observed": e["o"].get("show"), "forwarded": e["o"]["fwd"]}
                 case = c
@@ -127,6 +132,8 @@ def run(ck):
         ck.assumptions.append("transcription switches for repaired trees: " + ",".join(fixes))
     if ck.replay:
         blob = json.load(open(ck.replay))
+        if blob["case"].get("layer") == "C":
+            blob["case"].setdefault("uc", "N")  # replay files written before the unit-carrier dimension existed
         obs = ck.pmap("impl_c06", "observe", [blob["case"]], nproc=1)
         if "_error" in obs[0]:
             raise MachineryFailure("replay error: " + str(obs[0]))
@@ -148,6 +155,18 @@ def run(ck):
         raise MachineryFailure("too few structural cases")
     scases.sort(key=lambda c: json.dumps(c, sort_keys=True))
     sfn = sorted({c["fn"] for c in scases})
+    # closeness tests: the instance must contain, for every function and every unit-carrier pattern, cases whose answer
+    # changes when the operands reach NumPy in the other order (TLC computes that itself: field sw)
+    sens = {}
+    for c in scases:
+        if c["fn"] in ("isclose", "allclose"):
+            k = c["fn"] + ":" + "".join(c["s"])
+            sens.setdefault(k, [0, 0])
+            sens[k][0] += 1
+            sens[k][1] += bool(c["sw"])
+    if not sens or any(v[1] == 0 for v in sens.values()):
+        raise MachineryFailure("closeness family: a (function, carrier pattern) without a swap-sensitive case: " + str(sens))
+    ck.cov["closeness_cases"] = {k: {"cases": v[0], "swap_sensitive": v[1]} for k, v in sorted(sens.items())}
     ck.cov["model_level_failing_functions"] = sorted({c["fn"] for c in scases if c["mfail"]})
 
     # ---- 2. catalogue case table ----
@@ -212,6 +231,11 @@ def run(ck):
     kw_live = {(o["c"]["fn"], o["c"]["kw"]) for o in kwobs if not o["o"]["ur"] and not o["o"]["br"] and (o["o"]["size"] > 0 or o["o"]["nt"] > 0)}
     ck.cov["keyword_completeness"] = {"cases": len(kwobs), "function_keyword_pairs": len(kw_pairs), "pairs_compared_with_numbers": len(kw_live),
                                       "pairs_never_returning": sorted("%s(%s=)" % p for p in kw_pairs - kw_live)[:80]}
+    car = [o for o in cobs if o["c"].get("uc", "N") != "N"]
+    ck.cov["unit_carriers"] = {"cases": len(car), "both_return": sum(1 for o in car if not o["o"]["ur"] and not o["o"]["br"]),
+                               "refused_on_unyt_inputs": sum(1 for o in car if o["o"]["ur"] and not o["o"]["br"]),
+                               "functions_compared_with_numbers": len({o["c"]["fn"] for o in car if not o["o"]["ur"] and not o["o"]["br"] and o["o"]["size"] > 0}),
+                               "band_cases": sum(1 for o in cobs if o["c"].get("dc") == "band")}
     lay = [o for o in both_ok if o["c"].get("lo", "C") != "C"]
     ck.cov["layouts"] = {"input_layout_cases": sum(1 for o in cobs if o["c"].get("li", "C") != "C"), "out_layout_cases": sum(1 for o in cobs if o["c"].get("lo", "C") != "C"),
                          "out_layout_cases_both_return": len(lay), "numpy_refuses_target": sum(1 for o in cobs if o["c"].get("tg") and o["o"]["br"])}
